@@ -304,6 +304,10 @@ func (api *API) addRoutes(router *mux.Router) {
 		http.HandlerFunc(api.notFoundHandler),
 		"/notfound",
 	)
+	router.MethodNotAllowedHandler = ochttp.WithRouteTag(
+		http.HandlerFunc(api.methodNotAllowedHandler),
+		"/notallowed",
+	)
 	api.router = router
 }
 
@@ -1082,6 +1086,10 @@ func repoGCToGlobal(r *types.RepoGC) types.GlobalRepoGC {
 
 func (api *API) notFoundHandler(w http.ResponseWriter, r *http.Request) {
 	api.sendResponse(w, http.StatusNotFound, errors.New("not found"), nil)
+}
+
+func (api *API) methodNotAllowedHandler(w http.ResponseWriter, r *http.Request) {
+	api.sendResponse(w, http.StatusMethodNotAllowed, errors.New("method not allowed"), nil)
 }
 
 func (api *API) parsePinPathOrError(w http.ResponseWriter, r *http.Request) *types.PinPath {
